@@ -175,7 +175,8 @@ Definition new_flag_set (o : oracle) (fields : list flag) : nres :=
 (** * Parse *)
 Record world := {
   w_env : list N -> option (list N);                     (* os.LookupEnv *)
-  w_file : list N -> option (list N);                    (* os.ReadFile (ExpandHomeDir path); None = error *)
+  w_file : list N -> option (list N);                    (* os.ReadFile(ExpandHomeDir(path)) in the CURRENT world: the '~' expansion (HOME), the working
+                                                            directory and the file system are all part of this oracle; None = error *)
   w_b64 : list N -> option (list N);                     (* base64.StdEncoding.DecodeString; None = error *)
   w_json : list N -> option (list (token * value));      (* JsonUnmarshal: the assignments it makes; None = error *)
   w_set : oracle                                         (* value parsers outside the modelled sub-language *)
